@@ -203,6 +203,11 @@ class Effects:
                     p = self.root_param(ev.args[0])
                     if p in arrs or (p or "").startswith("<field"):
                         add(p, ev, f"{tgt[1]} writes its first argument, which aliases caller data")
+                if tgt is not None and tgt[0] == "mod" and tgt[1] in ("numpy.nan_to_num",) and ev.args \
+                        and dict(ev.kwargs).get("copy") == ("const", False):
+                    p = self.root_param(ev.args[0])
+                    if p in arrs or (p or "").startswith("<field"):
+                        add(p, ev, f"{tgt[1]}(..., copy=False) rewrites its argument, which aliases caller data")
                 for k, v in ev.kwargs:
                     if k == "out":
                         p = self.root_param(v)
